@@ -17,6 +17,7 @@ import Driver.Ops.Fdef
 import Driver.Ops.ReportText
 import Driver.Ops.Priced
 import Driver.Ops.DecOp
+import Driver.Ops.Sub
 /-! Line-protocol driver of the model: one JSON case per input line, one JSON answer per line.
     To add an op: write `Driver/Ops/<Name>.lean`, import it here, add one line to `opTable`
     (or to `outputTable` for a new output kind of op `run`). -/
@@ -59,7 +60,8 @@ def opTable : List (String × (Json → R Json)) := [
   ("cfg", Ops.opCfg),
   ("fdef", Ops.opFdef),
   ("b64", Ops.opB64),
-  ("dec", Ops.opDec)
+  ("dec", Ops.opDec),
+  ("sub", Ops.opSub)
 ]
 
 def dispatch (j : Json) : R Json := do
